@@ -34,19 +34,24 @@ func (g *cexprGen) blk(d int) string {
 	return "(blk " + strings.Join(items, " ") + ")"
 }
 
-// {call tie.echo [data="all" | data="$e"]}{param k: e /}..{/call}: the callee is a fixed function of its data (c04StmtEcho; the
+// {call tie.echo [data="all" | data="$e"]}{param k: e /}..{param k}..{/param}..{/call}: the callee is a fixed function of its data (c04StmtEcho; the
 // model's copy is echo_callee / echo_jcall in ocaml/ops_minijs.ml), so that what the generated call passes -- {}, opt_data, the
 // value of an expression, soy.$$augmentMap of one of them with the parameters -- is observable
-func (g *cexprGen) call() string {
-	d := g.r.Pick([]string{"dnone", "dall", "dall", "(dexpr (cvar " + sx("a") + "))"})
+func (g *cexprGen) call(d int) string {
+	dt := g.r.Pick([]string{"dnone", "dall", "dall", "(dexpr (cvar " + sx("a") + "))"})
 	if g.r.Chance(5) {
-		d = "(dexpr " + g.expr(g.r.Intn(4), 1) + ")" // mostly not a map: outside the subset
+		dt = "(dexpr " + g.expr(g.r.Intn(4), 1) + ")" // mostly not a map: outside the subset
 	}
 	var ps []string
 	for i := g.r.Intn(3); i > 0; i-- {
-		ps = append(ps, "("+sx(g.r.Pick([]string{"y", "x", "a", "f", "q", "y"}))+" "+g.expr(g.r.Intn(3), 1)+")")
+		k := sx(g.r.Pick([]string{"y", "x", "a", "f", "q", "y"}))
+		if d > 0 && g.r.Chance(35) {
+			ps = append(ps, "(pc "+k+" "+g.blk(d-1)+")") // {param k}..{/param}: its statements come before the call
+			continue
+		}
+		ps = append(ps, "(pv "+k+" "+g.expr(g.r.Intn(3), 1)+")")
 	}
-	return "(scall " + sx("tie.echo") + " " + d + " (" + strings.Join(ps, " ") + "))"
+	return "(scall " + sx("tie.echo") + " " + dt + " (" + strings.Join(ps, " ") + "))"
 }
 
 const c04StmtEcho = `tie.echo = function(opt_data, opt_sb, opt_ijData) {
@@ -61,7 +66,7 @@ const c04StmtEcho = `tie.echo = function(opt_data, opt_sb, opt_ijData) {
 
 func (g *cexprGen) stmt(d int) string {
 	if g.r.Chance(8) {
-		return g.call()
+		return g.call(d)
 	}
 	k := g.r.Intn(12)
 	if d <= 0 && k >= 6 {
@@ -288,7 +293,7 @@ func c04StmtTie(e *env, n int) {
 				cls = "outside-subset"
 			}
 			e.res.Count("stmt:"+it.req, it.sout != "none", "minijs-stmt:"+cls+":"+it.cls)
-			for _, f := range []string{"var ", " = '';", "} else if (", "} else {", "switch (", "default:", "case ", "for (var ", ".length;", " > 0) {", " == 0)", " - 1)", "Math.ceil(", " + '-';", "tie.echo({}", "tie.echo(opt_data,", "tie.echo(soy.$$augmentMap(", "tie.echo(opt_data.a,"} {
+			for _, f := range []string{"var ", " = '';", "} else if (", "} else {", "switch (", "default:", "case ", "for (var ", ".length;", " > 0) {", " == 0)", " - 1)", "Math.ceil(", " + '-';", "tie.echo({}", "tie.echo(opt_data,", "tie.echo(soy.$$augmentMap(", "tie.echo(opt_data.a,", "var param_"} {
 				if strings.Contains(it.text, f) {
 					e.res.Histogram["minijs-stmt:has:"+strings.TrimSpace(f)]++
 				}
